@@ -494,4 +494,24 @@ theorem tie_release_before_lock :
     (commitSkeleton.dropWhile (· != "call dn.fs.PutB => locator,_,err")).take 3 =
       ["call dn.fs.PutB => locator,_,err", "call dn.fs.throttle().Release", "call dn.fs.throttle"] := by decide
 
+/-! ### lock calls of the handle operations that Model/C13_RW.lean's scripts stand for -/
+
+/-- filehandle.Seek touches the inode through ONE call, `f.inode.Size()`, and takes no lock itself:
+its script is `RW.seekScript` = one read lock, taken and released inside Size (a Seek that held a
+read lock around `Size()` would be `RW.reentrantSeekScript`, which deadlocks against a pending
+writer: `RW.reentrant_read_cycle`) -/
+theorem tie_handleSeekCalls :
+    handleSeekSkeleton.filter (fun t => t.toList.take 4 == ['c', 'a', 'l', 'l']) = ["call f.inode.Size => size"] := by decide
+
+/-- filenode.Size: read lock around the field access -/
+theorem tie_nodeSizeSkeleton : nodeSizeSkeleton =
+  ["call fn.RLock", "defer", "call fn.RUnlock", "call fn.fileinfo.Size", "return"] := rfl
+
+/-- filenode.FileInfo (filehandle.Stat, Readdir of the parent): read lock -/
+theorem tie_nodeFileInfoSkeleton : nodeFileInfoSkeleton = ["call fn.RLock", "defer", "call fn.RUnlock", "return"] := rfl
+
+/-- filehandle.Stat / Truncate take no lock themselves (`RW.statScript`, `RW.writeScript`) -/
+theorem tie_handleStatSkeleton : handleStatSkeleton = ["call f.inode.FileInfo", "return"] := rfl
+theorem tie_handleTruncateSkeleton : handleTruncateSkeleton = ["call f.inode.Truncate", "return"] := rfl
+
 end ArvVerif.Tie.C13
